@@ -29,6 +29,15 @@ class InjectedIOError(OSError):
     """F2/F4/F6: an injected I/O failure."""
 
 
+F2_CLASSES = {"OSError": None, "EOFError": EOFError, "MemoryError": MemoryError, "RuntimeError": RuntimeError,
+              "KeyboardInterrupt": KeyboardInterrupt, "GeneratorExit": GeneratorExit}
+
+
+def f2_exception(fault, msg):
+    cls = F2_CLASSES.get((fault or {}).get("exc", "OSError"))
+    return InjectedIOError(5, msg) if cls is None else cls(msg)
+
+
 class Skip(Exception):
     """The operation's precondition does not hold in the model (possible after
     shrinking dropped an earlier operation): skip it."""
@@ -36,6 +45,17 @@ class Skip(Exception):
 
 def _dt(name):
     return np.dtype(name)
+
+
+import re as _re
+
+
+def natural_sorted(paths):
+    """Independent natural sort: digit runs compare as numbers; names with equal keys keep the
+    (alphabetical) order in which HDF5 iterates them."""
+    def key(s_):
+        return tuple(int(x) if x.isdigit() else x for x in _re.split(r"(\d+)", s_) if x)
+    return sorted(sorted(paths), key=key)
 
 
 def uri_of(path, fpath, slash=True):
@@ -64,6 +84,7 @@ class StoreRun:
         self._watch = None
         self._open_count = 0
         self._task_count = 0
+        self._attr_count = 0
         self._iter_chunks_seen = 0
         self.last_tracer = None
         self.last_exc = None
@@ -189,7 +210,15 @@ class StoreRun:
              "bin2_id": np.asarray(ch["bin2_id"], dtype=idt)}
         for col, dt in dtypes.items():
             d[col] = np.asarray(ch[col], dtype=_dt(dt))
-        return d if as_dict else pd.DataFrame(d)
+        if as_dict:
+            return d
+        df = pd.DataFrame(d)
+        how = self.cur_op.get("chunk_index", "default") if getattr(self, "cur_op", None) else "default"
+        if how == "offset":
+            df.index = np.arange(len(df)) + 7_000      # row labels carry no meaning
+        elif how == "permuted":
+            df.index = np.arange(len(df))[::-1]
+        return df
 
     def _iter_chunks(self, chunks, dtypes, as_dict, f2_at, frame_holder=None):
         wide = self.cur_op.get("wide_chunk") if getattr(self, "cur_op", None) else None
@@ -200,7 +229,7 @@ class StoreRun:
             for k, ch in enumerate(chunks):
                 if f2_at == k:
                     self.fired("F2")
-                    raise InjectedIOError(5, "injected: input iterator failed before chunk %d" % k)
+                    raise f2_exception(self.cur_op.get("fault"), "injected: input iterator failed before chunk %d" % k)
                 if wide is not None and wide["chunk"] == k:
                     ch = {c: list(v) for c, v in ch.items()}
                     ch["count"][wide["row"]] = wide["value"]
@@ -209,7 +238,7 @@ class StoreRun:
                 yield self._chunk_obj(ch, dtypes, as_dict)
             if f2_at == len(chunks):
                 self.fired("F2")
-                raise InjectedIOError(5, "injected: input iterator failed at exhaustion")
+                raise f2_exception(self.cur_op.get("fault"), "injected: input iterator failed at exhaustion")
         return gen()
 
     def _expected_create(self, op):
@@ -235,6 +264,17 @@ class StoreRun:
     def _arm_open_fault(self, fault):
         self._open_count = 0
         self._task_count = 0
+        self._attr_count = 0
+        f9 = fault["attr"] if fault is not None and fault.get("kind") == "F9" else None
+
+        def attr_hook(name):
+            k = self._attr_count
+            self._attr_count += 1
+            if k == f9:
+                self.fired("F9")
+                raise InjectedIOError(28, "injected: no space left on device while writing attribute %r" % name)
+
+        self.sim.hooks["attr"] = attr_hook
         target = fault["open"] if fault is not None and fault.get("kind") == "F4" else None
         width = fault.get("width", 1) if target is not None else 0
 
@@ -294,6 +334,7 @@ class StoreRun:
             self.sim.hooks.pop("open", None)
             self.sim.hooks.pop("close", None)
             self.sim.hooks.pop("task", None)
+            self.sim.hooks.pop("attr", None)
             try:
                 self.sim.drain()
             except Exception:
@@ -302,7 +343,7 @@ class StoreRun:
             # process alive: a lock it leaked stays held for whatever the process does next.
             # Only an interrupt/kill (F3), a success or a scheduling verdict resets the lock.
             leak_matters = (exc is not None and fault is not None and
-                            fault.get("kind") in ("F1", "F2", "F4", "F6") and
+                            fault.get("kind") in ("F0", "F1", "F2", "F4", "F6", "F9") and
                             exc[0] not in ("SimDeadlock", "StepLimit"))
             if seams.SIMLOCK.owner is not None:
                 self.stat("lock-held-after-op")
@@ -358,6 +399,25 @@ class StoreRun:
             pixels = ArrayLoader(binsdf, dense, chunksize=op["arraychunk"])
         else:
             pixels = self._iter_chunks(chunks, dtypes, form == "iterdict", f2_at, holder)
+        if fault and fault["kind"] == "F0":
+            columns = (columns or ["count"]) + ["no_such_column"]
+            self.fired("F0")
+        if op.get("bins_object") == "keep":
+            self._bins_obj = binsdf
+        elif op.get("bins_object") == "shrink":
+            kept = getattr(self, "_bins_obj", None)
+            if kept is None:
+                raise Skip("no kept bin table")
+            drop = kept.index[len(binsdf):]
+            kept.drop(index=drop, inplace=True)          # the caller's in-place edit
+            if len(kept) != len(binsdf) or list(kept["start"]) != list(binsdf["start"]) or \
+                    list(kept["chrom"]) != list(binsdf["chrom"]):
+                raise Skip("kept bin table is not a prefix")
+            for c in list(kept.columns):
+                if c not in binsdf.columns:
+                    kept.drop(columns=[c], inplace=True)
+            binsdf = kept
+            self.stat("bins-object-edited-in-place")
         fpath = self.fpath(fid)
         uri = uri_of(path, fpath, op.get("slash", True))
         kw = dict(columns=columns, dtypes=dtypes_arg, metadata=op.get("metadata"),
@@ -440,9 +500,12 @@ class StoreRun:
         else:
             k = fault["kind"]
             if exc is None:
-                if k in ("F1", "F2"):
+                if k in ("F0", "F1", "F2"):
                     self.violate("C13", "not-rejected", ["%s accepted without an error" % (fault,)])
                 cands = [fs_ok]
+            elif k == "F0":
+                # refused up front: nothing may have been touched
+                cands = [fs_old]
             elif k in ("F1", "F2"):
                 if un:
                     cands = [fs_old]
@@ -603,7 +666,7 @@ class StoreRun:
             for prop, oracle, detail in self._verify(fs, fids, quick=False):
                 self.violate(prop, oracle, detail)
         # C13 O-fail, stated directly on the disk
-        if fault is not None and fault.get("kind") in ("F1", "F2", "F3", "F4", "F6") and dest:
+        if fault is not None and fault.get("kind") in ("F0", "F1", "F2", "F3", "F4", "F6", "F9") and dest:
             fid, path = dest
             node = fs.lookup(fid, path) if fid in fs.files else None
             complete = node is not None and isinstance(node.coll, Coll)
@@ -683,10 +746,9 @@ class StoreRun:
         """O-list split in three oracles so that distinct defects have
         distinct signatures."""
         from cooler import fileops
-        from cooler.util import natsorted
 
         out = []
-        want = natsorted(list(fs.coolers(fid).keys()))
+        want = natural_sorted(list(fs.coolers(fid).keys()))
         with warnings.catch_warnings():
             warnings.simplefilter("ignore")
             try:
@@ -796,6 +858,9 @@ class StoreRun:
                         else:
                             if not isinstance(rl, h5py.ExternalLink) or rl.path != l[2]:
                                 errs.append("%s%s: expected external link" % (prefix, name))
+                            elif rl.filename != self.fpath(l[1]):
+                                errs.append("%s%s: external link stores file name %r, the source was given as %r" % (
+                                    prefix, name, rl.filename, self.fpath(l[1])))
                 rec(fs.files[fid], f, "/", 0)
                 inv = {}
                 for nid, a in addr.items():
@@ -1150,7 +1215,7 @@ def _wrap_iter_fault(cls, fault, run):
         for ch in orig(self):
             if n == k:
                 run.fired("F2")
-                raise InjectedIOError(5, "injected: input failed before chunk %d" % k)
+                raise f2_exception(fault, "injected: input failed before chunk %d" % k)
             n += 1
             run._iter_chunks_seen = n
             yield ch
@@ -1202,6 +1267,7 @@ def _op_merge(self, op):
         if not overflow:
             exp = Coll(ins[0].chromnames, ins[0].lengths, ins[0].bins, pixel_frame(out, dts),
                        ins[0].symmetric, None, ins[0].assembly)
+            exp.approx_cols = set().union(*[set(getattr(c, "approx_cols", ())) for c in ins]) & set(columns)
     uris = [uri_of(i["path"], self.fpath(i["file"])) for i in op["inputs"]]
     uri = uri_of(path, self.fpath(fid), op.get("slash", True))
     kw = dict(mergebuf=op["mergebuf"], mode=mode)
@@ -1363,7 +1429,24 @@ def _op_coarsen(self, op):
     nproc = int(op.get("nproc", 1))
     self._iter_chunks_seen = 0
     undo = _wrap_iter_fault(CoolerCoarsener, fault, self)
-    f6_target = fault["task"] if fault and fault["kind"] == "F6" else None
+    undo_agg = None
+    if fault and fault["kind"] == "F6" and fault.get("where") == "aggregate":
+        # the failure happens INSIDE the reader (serial or pooled path alike)
+        orig_agg = CoolerCoarsener._aggregate
+        cnt = [0]
+        tgt = fault["task"]
+
+        def failing(self_, span):
+            n_ = cnt[0]
+            cnt[0] += 1
+            if n_ == tgt:
+                self.fired("F6")
+                raise MemoryError("injected: out of memory while aggregating span %r" % (span,))
+            return orig_agg(self_, span)
+
+        CoolerCoarsener._aggregate = failing
+        undo_agg = lambda: setattr(CoolerCoarsener, "_aggregate", orig_agg)
+    f6_target = fault["task"] if fault and fault["kind"] == "F6" and fault.get("where") != "aggregate" else None
 
     def task_hook(jobno, i):
         n = self._task_count
@@ -1402,7 +1485,8 @@ def _op_coarsen(self, op):
         if op.get("columns"):
             kw["columns"] = list(op["columns"])
         if agg:
-            kw["agg"] = dict(agg)
+            kw["agg"] = {c: (getattr(np, a[3:]) if isinstance(a, str) and a.startswith("np.") else a)
+                         for c, a in agg.items()}
         if mode != "a" or op.get("explicit_mode"):
             kw["mode"] = mode
         if op.get("lock_none"):
@@ -1416,6 +1500,8 @@ def _op_coarsen(self, op):
     finally:
         if undo:
             undo()
+        if undo_agg:
+            undo_agg()
         self.sim.hooks.pop("task", None)
     # O-sched: no reader/writer overlap, no deadlock, for every schedule
     if len(self.sim.flock_conflicts) > nconf0:
@@ -1441,6 +1527,36 @@ def _op_zoomify(self, op):
     import cooler
 
     fid = op["file"]
+    if op.get("expect_refusal_same_file"):
+        # the output file is the file that holds a base: libhdf5 refuses to truncate an open file;
+        # the call fails and the input must survive untouched
+        if not any(b["file"] == fid for b in op["bases"]) or fid not in self.fs.files:
+            raise Skip("not the same-file case")
+        uris_ = [uri_of(b["path"], self.fpath(b["file"])) for b in op["bases"]]
+        fs_old = self.fs.clone()
+        self._arm_open_fault(None)
+        self._arm_snapshots(None)
+        exc, tracer = self._call(lambda: cooler.zoomify_cooler(uris_, self.fpath(fid), [int(r) for r in op["resolutions"]],
+                                                               chunksize=op["chunksize"], nproc=1), None)
+        self.stat("zoomify-into-its-own-input")
+        if exc is None:
+            self.stat("zoomify-into-its-own-input-accepted")
+            fs_new = fs_old.clone()
+            fs_new.files.pop(fid, None)
+            if os.path.exists(self.fpath(fid)):
+                os.remove(self.fpath(fid))
+            self.fs = fs_new
+            return exc, tracer
+        errs = self._verify(fs_old, [fid])
+        if errs:
+            self.violate("C09", "O-refused-input-intact", ["zoomify into the file that holds its base failed (%s) and the "
+                                                           "input did not survive: %s" % (exc[0], errs[0][2][:2])])
+            fs_new = fs_old.clone()
+            fs_new.files.pop(fid, None)
+            if os.path.exists(self.fpath(fid)):
+                os.remove(self.fpath(fid))
+            self.fs = fs_new
+        return exc, tracer
     bases = []
     for b in op["bases"]:
         if b["file"] not in self.fs.files or b["file"] == fid:
@@ -1485,6 +1601,9 @@ def _op_zoomify(self, op):
             cc = c.copy()
             cc.pixels = cc.pixels[["bin1_id", "bin2_id"] + columns]
             exp, ok = coarsen_model(cc, r // b, columns, op.get("agg") or {})
+            if op.get("agg") and r // b > 1:
+                # an aggregate over a chain equals the direct one only for max/min/sum (generated)
+                pass
             overflow = overflow or not ok
             # a level inherits the value dtype of the base its chain started from: any base that
             # divides r is acceptable (the values are the same whatever the chain)
@@ -1502,6 +1621,9 @@ def _op_zoomify(self, op):
                 "-r", ",".join(str(r) for r in resolutions), "-o", out]
         for u in uris[1:]:
             args += ["-i", u]
+        for col in (op.get("fields_order") or op.get("columns") or []):
+            a_ = (op.get("agg") or {}).get(col)
+            args += ["--field", col + (":agg=" + a_ if a_ else "")]
         args.append(uris[0])
 
         def call():
@@ -1511,7 +1633,9 @@ def _op_zoomify(self, op):
     else:
         kw = dict(chunksize=op["chunksize"], nproc=nproc)
         if op.get("columns"):
-            kw["columns"] = list(op["columns"])
+            kw["columns"] = list(op.get("fields_order") or op["columns"])
+        if op.get("agg"):
+            kw["agg"] = dict(op["agg"])
 
         def call():
             cooler.zoomify_cooler(uris if len(uris) > 1 or op.get("as_list") else uris[0], out, resolutions, **kw)
@@ -1612,6 +1736,18 @@ def _op_scool(self, op):
     if len(stored) != len(order):
         raise Skip("cell names collide after stripping the prefix")
     base_bins = cooler_bins(names, bm)
+    if op.get("bins_object") == "keep":
+        self._bins_obj = base_bins
+    elif op.get("bins_object") == "shrink":
+        kept = getattr(self, "_bins_obj", None)
+        if kept is None:
+            raise Skip("no kept bin table")
+        kept.drop(index=kept.index[len(base_bins):], inplace=True)     # the caller's in-place edit
+        if len(kept) != len(base_bins) or list(kept["start"]) != list(base_bins["start"]) or \
+                list(kept["chrom"]) != list(base_bins["chrom"]) or list(kept.columns) != list(base_bins.columns):
+            raise Skip("kept bin table is not a prefix")
+        base_bins = kept
+        self.stat("bins-object-edited-in-place")
     per_cell_bins = any(c.get("bin_extra") for c in cells.values()) or op.get("bins_as_dict")
     exp = {}
     pix = {}
@@ -1795,6 +1931,12 @@ def _op_rename(self, op):
     if self.fs.canonical(fid, path) is None:
         raise Skip("renaming through an external link is not generated")
     rmap = {k: v for k, v in op["map"].items()}
+    prev = getattr(self, "_last_rmap", None)
+    if op.get("reuse_map") and prev is not None and prev[1] == op["map"]:
+        # the caller applies ONE dict object to several coolers: it must still say what it said
+        rmap = prev[0]
+        self.stat("rename-map-object-reused")
+    self._last_rmap = (rmap, dict(op["map"]))
     old = list(node.coll.chromnames)
     new = [rmap.get(n, n) for n in old]
     if len(set(new)) != len(new):
@@ -1841,6 +1983,15 @@ def _op_rename(self, op):
                 if l[0] == "h" and l[1] is not n2 and isinstance(l[1].coll, Coll):
                     siblings.append("/cells/" + cname)
                     l[1].coll = INDET   # judged by the dedicated oracle below, not by O-read
+    # selectors obtained from the object BEFORE the rename: lookups through them use the new names too
+    pre_sel = None
+    if not op.get("expect_failure"):
+        try:
+            with warnings.catch_warnings():
+                warnings.simplefilter("ignore")
+                pre_sel = (clr.bins(), clr.pixels(), clr.matrix(balance=False) if "count" in node.coll.pixels else None)
+        except Exception:
+            pre_sel = None
     self._arm_open_fault(None)
     self._arm_snapshots(None)
     exc, tracer = self._call(lambda: cooler.rename_chroms(clr, rmap), None)
@@ -1883,6 +2034,24 @@ def _op_rename(self, op):
                             pass
                 except Exception as e:
                     errs.append("%s: lookup by new name %r raised %s: %s" % (label, nn, type(e).__name__, str(e)[:80]))
+    if pre_sel is not None and not errs:
+        with warnings.catch_warnings():
+            warnings.simplefilter("ignore")
+            fresh1 = cooler.Cooler(uri)
+            for o, nn in zip(old, new):
+                try:
+                    a = pre_sel[0].fetch(nn)
+                    b = fresh1.bins().fetch(nn)
+                    if len(a) != len(b) or list(a["start"]) != list(b["start"]):
+                        errs.append("selector obtained before the rename: bins().fetch(%r) differs" % nn)
+                    if len(pre_sel[1].fetch(nn)) != len(fresh1.pixels().fetch(nn)):
+                        errs.append("selector obtained before the rename: pixels().fetch(%r) differs" % nn)
+                    if pre_sel[2] is not None and pre_sel[2].fetch(nn).tolist() != before[o][1]:
+                        errs.append("selector obtained before the rename: matrix().fetch(%r) differs" % nn)
+                except Exception as e:
+                    errs.append("selector obtained before the rename: lookup by new name %r raised %s" % (
+                        nn, type(e).__name__))
+                    break
     if errs:
         self.violate("C18", "O-rename", errs)
     else:
@@ -1976,8 +2145,24 @@ def _op_cliload(self, op):
     tag = "in%d" % self.opidx
     txt = os.path.join(self.S, tag + ".coo.txt")
     with open(txt, "w") as f:
-        for i, j, v in zip(rec["bin1_id"], rec["bin2_id"], rec["count"]):
-            f.write("%d\t%d\t%d\n" % (i, j, v))
+        if op.get("duplex"):
+            # both copies of every off-diagonal pixel are listed (--input-copy-status duplex): the
+            # lower-triangle copies are dropped, whole chunks of them included
+            lines = []
+            for i, j, v in zip(rec["bin1_id"], rec["bin2_id"], rec["count"]):
+                lines.append((i, j, v))
+                if i != j:
+                    lines.append((j, i, v))
+            order = op["duplex"]
+            if order == "lower-first":
+                lines.sort(key=lambda t: (t[0] <= t[1], t[0], t[1]))
+            elif order == "upper-first":
+                lines.sort(key=lambda t: (t[0] > t[1], t[0], t[1]))
+            for i, j, v in lines:
+                f.write("%d\t%d\t%d\n" % (i, j, v))
+        else:
+            for i, j, v in zip(rec["bin1_id"], rec["bin2_id"], rec["count"]):
+                f.write("%d\t%d\t%d\n" % (i, j, v))
     if op.get("binspec") == "chromsizes":
         cs = os.path.join(self.S, tag + ".chrom.sizes")
         with open(cs, "w") as f:
@@ -1996,6 +2181,8 @@ def _op_cliload(self, op):
         args += ["--mergebuf", str(op["mergebuf"])]
     if not op["symmetric"]:
         args.append("--no-symmetric-upper")
+    if op.get("duplex"):
+        args += ["--input-copy-status", "duplex"]
     if mode == "a":
         args.append("--append")
     args += [bins_arg, txt, uri]
